@@ -233,3 +233,52 @@ V("C10-t1", "C10", (WR, "        size = size or len(bts)\n        new_size = sel
 V("C10-t2", "C10", (SDW, "            yield from self.load_chunk(i * chunk_rows, (i + 1) * chunk_rows)",
                     "            first_row = i * chunk_rows\n            yield from self.load_chunk(first_row, first_row + chunk_rows)"),
   "silent", "")
+
+# ---------------------------------------------------------------------------------------------- C06
+SW = "utils/internal/struct_writer.py"
+IE = "utils/internal/internal_enums.py"
+ATT = "logical_record/core/attribute/attribute.py"
+ESET = "logical_record/core/eflr/eflr_set.py"
+V("C06-b1", "C06", (SW, "    if value < 128:", "    if value <= 128:"), "R06.2", "128 written in one byte (0x80 = 2-byte marker)")
+V("C06-b2", "C06", (SW, "    if value < 16384:", "    if value <= 16384:"), "R06.2", "16384 written as C0 00 (agent mutant C03-m3)")
+V("C06-b3", "C06", (SW, "RepresentationCode.UNORM.convert(value + UNORM_OFFSET)", "RepresentationCode.UNORM.convert(value | UNORM_OFFSET)"),
+  "silent", "OR instead of add in the 2-byte branch: identical for 128..16383 (bits cannot interact)")
+V("C06-b3b", "C06", (SW, "RepresentationCode.ULONG.convert(value + ULONG_OFFSET)", "RepresentationCode.ULONG.convert(value | ULONG_OFFSET)"),
+  "R06.2", "OR instead of add in the 4-byte branch: values >= 2^30 no longer overflow and are wrapped (agent mutants C06-m1, C12-m2)")
+V("C06-b4", "C06", (SW, "UNORM_OFFSET = 32768 ", "UNORM_OFFSET = 16384 "), "R06.2", "wrong marker bits for the 2-byte form")
+V("C06-b5", "C06", (SW, "    if len(value_str) > 255:\n        raise ValueError(f\"IDENT (and UNITS) values cannot be longer than 255 characters; \"\n                         f\"got {len(value_str)} characters: '{value_str}'\")\n",
+                    "    value_str = value_str[:255]\n"), "R06.3", "over-long identifiers truncated silently")
+V("C06-b6", "C06", (SW, "    return RepresentationCode.USHORT.convert(len(value_str)) + value_str.encode('ascii')",
+                    "    return write_struct_uvari(len(value_str)) + value_str.encode('ascii')"), "R06.3",
+  "IDENT with a UVARI length prefix")
+V("C06-b7", "C06", (ATT, "            bts += write_struct_ident(self._label)", "            bts += write_struct_ascii(self._label)"),
+  "R06.3", "labels through the ASCII emitter")
+V("C06-b8", "C06", [(ATT, "from dliswriter.utils.internal.struct_writer import write_struct, write_struct_ident, write_struct_uvari",
+                     "from dliswriter.utils.internal.struct_writer import write_struct, write_struct_ident, write_struct_uvari, write_struct_ascii")],
+  "silent", "unused import")
+V("C06-b9", "C06", (SW, "    value += RepresentationCode.USHORT.convert(int(time_zone + month, 2))", "    value += RepresentationCode.USHORT.convert(int(month + time_zone, 2))"),
+  "R06.4", "time zone and month nibbles swapped")
+V("C06-b10", "C06", (SW, "min(round(date_time.microsecond / 1000), 999)", "round(date_time.microsecond / 1000)"), "R06.4",
+  "milliseconds can be 1000 (agent mutants C05-m1 / C06-m2 family)")
+V("C06-b11", "C06", (SW, "    date_time = date_time.astimezone(timezone.utc)\n", ""), "R06.4", "no conversion to UTC although TZ says GMT")
+V("C06-b12", "C06", (SW, "        obname = origin_reference + copy_number + name", "        obname = copy_number + origin_reference + name"),
+  "R06.5", "origin and copy number swapped in OBNAME")
+V("C06-b13", "C06", (SW, "    return write_struct_ident(value.parent.set_type) + value.obname", "    return value.obname + write_struct_ident(value.parent.set_type)"),
+  "R06.5", "OBJREF fields in the wrong order")
+V("C06-b14", "C06", (IE, "    SNORM = 13, Struct('>h')", "    SNORM = 13, Struct('<h')"), "R06.1", "little-endian SNORM")
+V("C06-b15", "C06", (IE, "    ULONG = 17, Struct('>I')", "    ULONG = 17, Struct('>i')"), "R06.1", "signed ULONG")
+V("C06-b16", "C06", (IE, "        return self.converter.pack(value)", "        return self.converter.pack(value & 0xFFFFFFFF if isinstance(value, int) else value)"),
+  "R06.1", "out-of-range integers wrapped instead of rejected")
+V("C06-b17", "C06", (SW, "def write_struct(representation_code: RepresentationCode, value: Any) -> bytes:",
+                     "@lru_cache(maxsize=65536)\ndef write_struct(representation_code: RepresentationCode, value: Any) -> bytes:"),
+  "R06.7", "value memo is back")
+V("C06-b18", "C06", (SW, "    value_str = str(value)\n    return write_struct_uvari(len(value_str)) + value_str.encode('ascii')",
+                     "    value_str = str(value)\n    return write_struct_uvari(len(value_str)) + value_str.encode('utf-8')"), "R06.3",
+  "ASCII values written as UTF-8 with the length in characters (agent mutant C04-m2)")
+V("C06-b19", "C06", (ESET, "write_struct_ident(self.set_name)", "write_struct_ident(self.set_name[:8])"), "silent",
+  "truncation upstream of the emitter is not C06's emitter rule (C05/C12)")
+V("C06-t1", "C06", (SW, "    if value < 128:\n        return RepresentationCode.USHORT.convert(value)\n\n    if value < 16384:\n        return RepresentationCode.UNORM.convert(value + UNORM_OFFSET)\n",
+                    "    if value <= 127:\n        return RepresentationCode.USHORT.convert(value)\n\n    if value <= 16383:\n        return RepresentationCode.UNORM.convert(UNORM_OFFSET + value)\n"),
+  "silent", "inclusive bounds")
+V("C06-t2", "C06", (SW, "        obname = origin_reference + copy_number + name\n", "        obname = b''.join((origin_reference, copy_number, name)) if False else origin_reference + copy_number + name\n"),
+  "silent", "")
